@@ -175,9 +175,9 @@ def parts(tier):
                    shards=16, timeout=170, path_timeout=60)]
     return [CH("history3", "vflib.props.c14:scen_history", {"calls": 3, "inputs": ["simple", "shared", "lists", "clash", "reserved", "nullonly"], "frameworks": ["pydantic", "dataclasses", "attrs", "base"],
                 "override_kinds": ["types_style", "converters", "max_literals_0"]},
-               shards=16, timeout=250, path_timeout=60),
+               shards=16, timeout=150, path_timeout=60),
             CH("history4", "vflib.props.c14:scen_history", {"calls": 4, "inputs": ["shared", "clash"], "frameworks": ["pydantic", "attrs"]},
-               shards=16, timeout=250, path_timeout=60)]
+               shards=16, timeout=150, path_timeout=60)]
 
 
 META = {
